@@ -162,6 +162,8 @@ def find_result(results, h):
             return k, v
     return None, None
 
+MEM_BUDGET_GB = 44.0
+
 def cpu_jobs(n_batches):
     c = os.cpu_count() or 4
     # measured: more than ~6 concurrent CBMC processes slow each other down 5-8x on this machine (memory bound)
@@ -228,7 +230,10 @@ def check(prop, tier, seed, only=None, jobs=0, write_evidence=True):
                     ms[r] = byname[r]
             ms = sorted(ms.values(), key=lambda m: m.module)
             try:
-                r, e, log, _ = run_batch(shard, crate, lst, ms, logdir, per, memkb=ext_memkb if kind else None)
+                # memory-aware parallelism: the harnesses of one batch run side by side, so their
+                # measured peaks (`mem=` in the harness header, GB) must fit the machine together
+                nj = per if kind else max(1, min(per, int(MEM_BUDGET_GB // max(1, len(batches)) // max(h.mem for h in lst))))
+                r, e, log, _ = run_batch(shard, crate, lst, ms, logdir, nj, memkb=ext_memkb if kind else None)
             except vk.HarnessMismatch as ex:
                 r, e, log = {}, [str(ex)], None
             with lock:
